@@ -160,6 +160,7 @@ pub fn opt_q<Q: Quantity>(r: Option<Q>) -> String {
     }
 }
 
+#[cfg(feature = "temp")]
 fn temp(a: &[&str]) -> String {
     use quantities::temperature::{Temperature, TEMPERATURE_CONVERTER};
     match a[0] {
@@ -181,6 +182,7 @@ fn temp(a: &[&str]) -> String {
 pub fn dispatch(op: &str, a: &[&str]) -> Option<String> {
     match op {
         "si" => Some(si(a)),
+        #[cfg(feature = "temp")]
         "temp" => Some(temp(a)),
         _ => None,
     }
